@@ -1307,7 +1307,25 @@ func (e *env) buildLocal() error {
 	if err := os.MkdirAll(e.root, 0755); err != nil {
 		return err
 	}
-	e.lfs = webdav.LocalFileSystem(e.root)
+	// The served directory is configured in several spellings (what the
+	// operator passes to LocalFileSystem is not canonical in general:
+	// cmd/webdav-server serves "." by default).
+	spelled := e.root
+	switch e.idx % 4 {
+	case 1:
+		if wd, err := os.Getwd(); err == nil {
+			if rel, err := filepath.Rel(wd, e.root); err == nil {
+				spelled = rel
+			}
+		}
+	case 2:
+		spelled = e.root + "/"
+	case 3:
+		spelled = filepath.Dir(e.root) + "/./" + filepath.Base(e.root)
+	}
+	e.c.Observe("served directory configured as", map[bool]string{true: "absolute", false: "relative to the working directory"}[filepath.IsAbs(spelled)]+
+		map[bool]string{true: ", clean", false: ", not clean (trailing slash, dot segment)"}[filepath.Clean(spelled) == spelled], 1)
+	e.lfs = webdav.LocalFileSystem(spelled)
 	for _, n := range e.t.Nodes {
 		p := e.diskPath(absPath(n.Segs))
 		if n.Dir {
